@@ -482,7 +482,7 @@ func isRefType(t types.Type) bool {
 // origins resolves an expression to the set of (parameter, path) positions it denotes or copies.
 func (oc *originCtx) origins(e ast.Expr, depth int) []origin {
 	c := oc.c
-	if depth > 6 || e == nil {
+	if depth > 10 || e == nil {
 		return nil
 	}
 	e = unparen(e)
